@@ -82,6 +82,19 @@ class Ctx:
         if sig in self.viol:
             self.viol[sig]['count'] += 1
             return True
+        if getattr(self, 'dry', False):
+            self.viol[sig] = {'detail': detail, 'replay': None, 'count': 1}
+            return True
+        if getattr(self, '_shrinkable', False) and scenario and os.environ.get('VERIF_NO_SHRINK') is None:
+            try:
+                small = self.shrink(flavour, scenario, sig)
+                if small and small != scenario:
+                    meta = dict(meta or {})
+                    meta['shrunk_from_lines'] = scenario.count('\n')
+                    scenario = small
+            except Exception as e:                      # shrinking is a convenience: never let it change a verdict
+                meta = dict(meta or {})
+                meta['shrink_error'] = repr(e)
         os.makedirs(os.path.join(REPLAY_DIR, self.pid), exist_ok=True)
         path = os.path.join(REPLAY_DIR, self.pid, re.sub(r'[^A-Za-z0-9_.\-]', '_', sig.split('/', 1)[1])[:100] + f'-s{self.seed}.json')
         with open(path, 'w') as f:
@@ -90,7 +103,67 @@ class Ctx:
         self.viol[sig] = {'detail': detail, 'replay': path, 'count': 1}
         return True
 
+    def shrink(self, flavour, text, sig, budget=40):
+        """bounded delta debugging over the steps of a scenario (header up to the first start and the final stop are kept, par blocks are
+        atomic): the smallest variant found within `budget` re-runs that still produces a process-level failure with the same signature"""
+        lines = text.rstrip('\n').split('\n')
+        first = next((i for i, l in enumerate(lines) if l.startswith(('start ', 'start_serial '))), None)
+        if first is None:
+            return text
+        head, rest = lines[:first + 1], lines[first + 1:]
+        tail = []
+        while rest and rest[-1] in ('stop',):
+            tail.insert(0, rest.pop())
+        units, i = [], 0
+        while i < len(rest):
+            if rest[i].startswith('par '):
+                j = next((k for k in range(i, len(rest)) if rest[k].startswith('endpar')), len(rest) - 1)
+                units.append(rest[i:j + 1])
+                i = j + 1
+            else:
+                units.append([rest[i]])
+                i += 1
+        runs = [0]
+
+        t_start = time.time()
+        head_fast = [re.sub(r'^watchdog \d+$', 'watchdog 15000', l) for l in head]      # candidates that hang are not worth a full watchdog
+
+        def fails(us):
+            if runs[0] >= budget or time.time() - t_start > 90:
+                return False
+            runs[0] += 1
+            t = '\n'.join(head_fast + [l for u in us for l in u] + tail) + '\n'
+            r = runner.run_scenario(flavour, t, timeout=300, leaks=True)
+            probe = Ctx(self.pid, self.tier, self.seed)
+            probe.dry = True
+            probe.known = {}
+            probe.generic_failures(r)
+            return sig in probe.viol
+        n = 2
+        while len(units) >= 2 and runs[0] < budget:
+            size = max(1, len(units) // n)
+            reduced = False
+            for k in range(0, len(units), size):
+                cand = units[:k] + units[k + size:]
+                if cand and fails(cand):
+                    units = cand
+                    n = max(n - 1, 2)
+                    reduced = True
+                    break
+            if not reduced:
+                if size == 1:
+                    break
+                n = min(len(units), n * 2)
+        return '\n'.join(head + [l for u in units for l in u] + tail) + '\n'
+
     def generic_failures(self, r, meta=None, allow_classes=()):
+        self._shrinkable = True
+        try:
+            return self._generic_failures(r, meta, allow_classes)
+        finally:
+            self._shrinkable = False
+
+    def _generic_failures(self, r, meta=None, allow_classes=()):
         """Turns process-level failures of a player run into violations: sanitizer reports, monitor
         violations, crashes, hangs. Returns number of problems seen. 'harness' outcomes are inconclusive."""
         n = 0
